@@ -868,4 +868,59 @@ def csvRoundTrip (r : Result) : Except Err Result :=
   | .error e => .error e
   | .ok t => ofCsv t
 
+/-! ### The result container: a lazily evaluated SELECT result (`rdflib/query.py` `Result`)
+
+`Result._bindings` (rows already materialised) and `Result._genbindings` (the evaluator's generator, `none` once
+exhausted or when the result was built from a list).  Histories are sequences of
+  * `take k` : a fresh `iter(result)` advanced `k` times (`next(it)` k times, or a `for` loop left by `break`
+               after `k` rows) and then dropped;
+  * `force`  : anything that reads `Result.bindings` — `len(r)`, `bool(r)`, `r.bindings`, `r.serialize(...)`.
+`Result.__iter__` appends every row it pulls from the generator to `_bindings` and hands out those in which
+something is bound (after `fix: Result.__iter__ keeps rows in which nothing is bound …`). -/
+
+structure Lazy where
+  mat : List Row
+  gen : Option (List Row)
+  deriving DecidableEq, Repr
+
+inductive HOp where
+  | take (k : Nat)
+  | force
+  deriving DecidableEq, Repr
+
+def rowBound (r : Row) : Bool := r.any Option.isSome
+
+/-- `k` calls of `next` on a fresh iterator while the generator is live: rows pulled are appended to
+    `mat`; all-unbound rows are not handed out (and do not count); running dry clears `_genbindings` -/
+def pull : Nat → List Row → List Row → List Row → Lazy × List Row
+  | 0, g, mat, out => (⟨mat, some g⟩, out)
+  | _ + 1, [], mat, out => (⟨mat, none⟩, out)
+  | k + 1, b :: g, mat, out =>
+    if rowBound b then pull k g (mat ++ [b]) (out ++ [b]) else pull (k + 1) g (mat ++ [b]) out
+
+/-- the pre-fix `__iter__`: `if b: self._bindings.append(b); yield …` (kept to document the defect) -/
+def pullOld : Nat → List Row → List Row → List Row → Lazy × List Row
+  | 0, g, mat, out => (⟨mat, some g⟩, out)
+  | _ + 1, [], mat, out => (⟨mat, none⟩, out)
+  | k + 1, b :: g, mat, out =>
+    if rowBound b then pullOld k g (mat ++ [b]) (out ++ [b]) else pullOld (k + 1) g mat out
+
+/-- `Result.bindings` (getter): `self._bindings += list(self._genbindings); self._genbindings = None` -/
+def Lazy.force (s : Lazy) : Lazy :=
+  match s.gen with
+  | some g => ⟨s.mat ++ g, none⟩
+  | none => s
+
+/-- one step of a history: new state and what the caller saw (rows handed out / the rows counted) -/
+def Lazy.step (s : Lazy) : HOp → Lazy × List Row
+  | .take k =>
+    match s.gen with
+    | some g => pull k g s.mat []
+    | none => (s, (s.mat.filter rowBound).take k)
+  | .force => (s.force, s.force.mat)
+
+def Lazy.run (s : Lazy) : List HOp → Lazy
+  | [] => s
+  | o :: os => ((s.step o).1).run os
+
 end RV.C16
